@@ -33,8 +33,8 @@ use std::collections::HashSet;
 
 use super::c23::{self, Alg, Built, Dir, Env, Field, KeyCtx, Region};
 use super::common::{self, Ctx};
-use crate::packet::verif_probe::gh::{view, View};
 use crate::packet::PacketParsingError;
+use crate::packet::verif_probe::gh::{View, view};
 
 #[derive(Clone, Copy, PartialEq, Eq, Debug)]
 enum Role {
@@ -72,53 +72,168 @@ fn bases(env: &Env) -> Vec<Base> {
     let mut out = Vec::new();
     let uid = c23::ef("uid32", c23::T_UID, &c23::filler(32, 0x41));
     let v4h = [
-        c23::hdr_v34(4, 0, 3, 0, 6, 0xE8, 0, 0, [0; 4], [0, 0, 0, 0x0123_4567_89AB_CDEF]),
-        c23::hdr_v34(4, 0, 4, 2, 6, 0xE8, 0x0000_0100, 0x0000_0200, [10, 0, 0, 1], [1, 0x0123_4567_89AB_CDEF, 3, 4]),
+        c23::hdr_v34(
+            4,
+            0,
+            3,
+            0,
+            6,
+            0xE8,
+            0,
+            0,
+            [0; 4],
+            [0, 0, 0, 0x0123_4567_89AB_CDEF],
+        ),
+        c23::hdr_v34(
+            4,
+            0,
+            4,
+            2,
+            6,
+            0xE8,
+            0x0000_0100,
+            0x0000_0200,
+            [10, 0, 0, 1],
+            [1, 0x0123_4567_89AB_CDEF, 3, 4],
+        ),
     ];
     let v5h = [
-        c23::hdr_v5(0, 3, 0, 6, 0, 0, 0, 0, 0, [0, 0], 0, 0x0123_4567_89AB_CDEF, 0, 0),
-        c23::hdr_v5(0, 4, 2, 6, 0xE8, 0x100, 0x200, 0, 0, [0, 1], 0x1111_2222_3333_4444, 0x0123_4567_89AB_CDEF, 3, 4),
+        c23::hdr_v5(
+            0,
+            3,
+            0,
+            6,
+            0,
+            0,
+            0,
+            0,
+            0,
+            [0, 0],
+            0,
+            0x0123_4567_89AB_CDEF,
+            0,
+            0,
+        ),
+        c23::hdr_v5(
+            0,
+            4,
+            2,
+            6,
+            0xE8,
+            0x100,
+            0x200,
+            0,
+            0,
+            [0, 1],
+            0x1111_2222_3333_4444,
+            0x0123_4567_89AB_CDEF,
+            3,
+            4,
+        ),
     ];
     for role in [Role::Request, Role::Response] {
         for v5 in [false, true] {
             for alg in [Alg::A256, Alg::A512] {
-                let dir = if role == Role::Request { Dir::C2S } else { Dir::S2C };
+                let dir = if role == Role::Request {
+                    Dir::C2S
+                } else {
+                    Dir::S2C
+                };
                 let ck = c23::ef("ck", c23::T_COOKIE, &env.cookies[alg.idx()]);
                 // fields before the authenticator
                 let mut pre: Vec<Field> = vec![uid.clone()];
                 if role == Role::Request {
                     pre.push(ck.clone());
-                    pre.push(c23::ef("ph", c23::T_PLACEHOLDER, &vec![0u8; env.cookies[alg.idx()].len()]));
+                    pre.push(c23::ef(
+                        "ph",
+                        c23::T_PLACEHOLDER,
+                        &vec![0u8; env.cookies[alg.idx()].len()],
+                    ));
                 }
                 if v5 {
                     pre.push(c23::draft_field());
                 }
                 // plaintexts
                 let plaintexts: Vec<(&str, Vec<Field>)> = match role {
-                    Role::Request => vec![("pt-empty", vec![]), ("pt-uid8", vec![c23::ef("u", c23::T_UID, &c23::filler(8, 0x31))])],
-                    Role::Response => vec![("pt-ck", vec![ck.clone()]), ("pt-2ck", vec![ck.clone(), ck.clone()])],
+                    Role::Request => vec![
+                        ("pt-empty", vec![]),
+                        (
+                            "pt-uid8",
+                            vec![c23::ef("u", c23::T_UID, &c23::filler(8, 0x31))],
+                        ),
+                    ],
+                    Role::Response => vec![
+                        ("pt-ck", vec![ck.clone()]),
+                        ("pt-2ck", vec![ck.clone(), ck.clone()]),
+                    ],
                 };
                 // trailing material
                 let posts: Vec<(&str, Vec<Field>, Vec<u8>)> = if v5 {
                     vec![
                         ("post0", vec![], vec![]),
-                        ("post1", vec![c23::ef("rs7", c23::T_REFID_RESP, &[0x61, 0x62, 0x63])], vec![]),
-                        ("post2", vec![c23::ef("uffff-7", 0xFFFF, &[1, 2, 3]), c23::ef("uid32b", c23::T_UID, &c23::filler(32, 0x91))], vec![]),
+                        (
+                            "post1",
+                            vec![c23::ef("rs7", c23::T_REFID_RESP, &[0x61, 0x62, 0x63])],
+                            vec![],
+                        ),
+                        (
+                            "post2",
+                            vec![
+                                c23::ef("uffff-7", 0xFFFF, &[1, 2, 3]),
+                                c23::ef("uid32b", c23::T_UID, &c23::filler(32, 0x91)),
+                            ],
+                            vec![],
+                        ),
                     ]
                 } else {
                     vec![
                         ("post0", vec![], vec![]),
-                        ("post1", vec![c23::ef("uid32b", c23::T_UID, &c23::filler(32, 0x91))], vec![]),
-                        ("post2", vec![c23::ef("u28", 0x0002, &c23::filler(24, 0x75)), c23::ef("uid32b", c23::T_UID, &c23::filler(32, 0x91))], vec![]),
-                        ("post-mac20", vec![], [&[0, 0, 0, 1][..], &c23::filler(16, 0xA1)].concat()),
+                        (
+                            "post1",
+                            vec![c23::ef("uid32b", c23::T_UID, &c23::filler(32, 0x91))],
+                            vec![],
+                        ),
+                        (
+                            "post2",
+                            vec![
+                                c23::ef("u28", 0x0002, &c23::filler(24, 0x75)),
+                                c23::ef("uid32b", c23::T_UID, &c23::filler(32, 0x91)),
+                            ],
+                            vec![],
+                        ),
+                        (
+                            "post-mac20",
+                            vec![],
+                            [&[0, 0, 0, 1][..], &c23::filler(16, 0xA1)].concat(),
+                        ),
                     ]
                 };
                 for (pt_name, pt_fields) in plaintexts.iter() {
                     let pt = c23::encode_raw(pt_fields);
                     let auths: Vec<(&str, Field)> = vec![
                         ("auth", c23::auth_crate("au", alg, dir, pt.clone(), vec![])),
-                        ("auth-tail8", c23::auth_crate("au", alg, dir, pt.clone(), vec![0xA0, 0xA1, 0xA2, 0xA3, 0, 0, 0, 0])),
-                        ("auth-nonce13", c23::auth_ext("au", alg, dir, pt.clone(), Some(c23::filler(13, 0x21)), 0x5A, vec![])),
+                        (
+                            "auth-tail8",
+                            c23::auth_crate(
+                                "au",
+                                alg,
+                                dir,
+                                pt.clone(),
+                                vec![0xA0, 0xA1, 0xA2, 0xA3, 0, 0, 0, 0],
+                            ),
+                        ),
+                        (
+                            "auth-nonce13",
+                            c23::auth_ext(
+                                "au",
+                                alg,
+                                dir,
+                                pt.clone(),
+                                Some(c23::filler(13, 0x21)),
+                                0x5A,
+                                vec![],
+                            ),
+                        ),
                     ];
                     for (a_name, a_field) in auths.iter() {
                         for (post_name, post_fields, tail) in posts.iter() {
@@ -136,7 +251,11 @@ fn bases(env: &Env) -> Vec<Base> {
                                 desc: format!(
                                     "{}/{}/aead{}/{}/{}/{}",
                                     if v5 { "v5" } else { "v4" },
-                                    if role == Role::Request { "request" } else { "response" },
+                                    if role == Role::Request {
+                                        "request"
+                                    } else {
+                                        "response"
+                                    },
                                     alg.tag(),
                                     a_name,
                                     pt_name,
@@ -167,7 +286,10 @@ struct Obs {
 
 impl Obs {
     fn auth_enc(&self) -> (usize, usize) {
-        self.view.as_ref().map(|v| (v.authenticated.len(), v.encrypted.len())).unwrap_or((0, 0))
+        self.view
+            .as_ref()
+            .map(|v| (v.authenticated.len(), v.encrypted.len()))
+            .unwrap_or((0, 0))
     }
     fn nothing_authentic(&self) -> bool {
         self.auth_enc() == (0, 0) && self.cookie_keys.is_none()
@@ -187,13 +309,24 @@ fn observe(k: &KeyCtx<'_>, bytes: &[u8]) -> Result<Obs, String> {
             view: Some(view(&p)),
             cookie_keys: cookie.map(|c| (c.s2c.key_bytes().to_vec(), c.c2s.key_bytes().to_vec())),
         },
-        Err(PacketParsingError::DecryptError(p)) => Obs { kind: "decrypt-error-with-packet", view: Some(view(&p)), cookie_keys: None },
-        Err(_) => Obs { kind: "parse-error", view: None, cookie_keys: None },
+        Err(PacketParsingError::DecryptError(p)) => Obs {
+            kind: "decrypt-error-with-packet",
+            view: Some(view(&p)),
+            cookie_keys: None,
+        },
+        Err(_) => Obs {
+            kind: "parse-error",
+            view: None,
+            cookie_keys: None,
+        },
     })
 }
 
 fn strong(r: Region) -> bool {
-    matches!(r, Region::Header | Region::PreField | Region::Nonce | Region::Ciphertext)
+    matches!(
+        r,
+        Region::Header | Region::PreField | Region::Nonce | Region::Ciphertext
+    )
 }
 
 fn region_name(r: Region) -> &'static str {
@@ -212,15 +345,26 @@ fn region_name(r: Region) -> &'static str {
 
 fn region_of_name(s: &str) -> Option<Region> {
     [
-        Region::Header, Region::PreField, Region::AuthLengths, Region::Nonce, Region::NoncePad, Region::Ciphertext,
-        Region::AuthTail, Region::PostField, Region::Tail,
+        Region::Header,
+        Region::PreField,
+        Region::AuthLengths,
+        Region::Nonce,
+        Region::NoncePad,
+        Region::Ciphertext,
+        Region::AuthTail,
+        Region::PostField,
+        Region::Tail,
     ]
     .into_iter()
     .find(|r| region_name(*r) == s)
 }
 
 /// The verdict for one mutant. `Ok(class of outcome)` or `Err((violation class, text))`.
-fn judge(region: Region, base: &Obs, got: &Result<Obs, String>) -> Result<&'static str, (String, String)> {
+fn judge(
+    region: Region,
+    base: &Obs,
+    got: &Result<Obs, String>,
+) -> Result<&'static str, (String, String)> {
     let got = match got {
         Ok(o) => o,
         // a panic is C23's finding; here it reports nothing as authentic
@@ -228,7 +372,11 @@ fn judge(region: Region, base: &Obs, got: &Result<Obs, String>) -> Result<&'stat
     };
     if strong(region) {
         if got.nothing_authentic() {
-            Ok(if got.view.is_some() { "rejected-with-packet" } else { "rejected-parse-error" })
+            Ok(if got.view.is_some() {
+                "rejected-with-packet"
+            } else {
+                "rejected-parse-error"
+            })
         } else {
             Err((
                 format!("C25:accepted-after-{}-change", region_name(region)),
@@ -244,14 +392,30 @@ fn judge(region: Region, base: &Obs, got: &Result<Obs, String>) -> Result<&'stat
         }
     } else if got.auth_enc() == (0, 0) {
         if got.cookie_keys.is_some() {
-            Err(("C25:cookie-keys-without-authentication".into(), format!("cookie keys reported although no field is authenticated ({})", got.kind)))
+            Err((
+                "C25:cookie-keys-without-authentication".into(),
+                format!(
+                    "cookie keys reported although no field is authenticated ({})",
+                    got.kind
+                ),
+            ))
         } else {
-            Ok(if got.view.is_some() { "empty-with-packet" } else { "empty-parse-error" })
+            Ok(if got.view.is_some() {
+                "empty-with-packet"
+            } else {
+                "empty-parse-error"
+            })
         }
     } else if got.same_content(base) {
         match (&got.cookie_keys, &base.cookie_keys) {
-            (Some(a), Some(b)) if a != b => Err(("C25:different-cookie-keys".into(), "cookie keys differ from the base packet's".into())),
-            (Some(_), None) => Err(("C25:different-cookie-keys".into(), "cookie keys reported that the base packet does not yield".into())),
+            (Some(a), Some(b)) if a != b => Err((
+                "C25:different-cookie-keys".into(),
+                "cookie keys differ from the base packet's".into(),
+            )),
+            (Some(_), None) => Err((
+                "C25:different-cookie-keys".into(),
+                "cookie keys reported that the base packet does not yield".into(),
+            )),
             _ => Ok("identical"),
         }
     } else {
@@ -273,20 +437,30 @@ fn judge(region: Region, base: &Obs, got: &Result<Obs, String>) -> Result<&'stat
 /// fields the harness put before the authenticator / into the plaintext, and (server) the
 /// session keys the harness put into the cookie.
 fn check_base(env: &Env, b: &Base, obs: &Result<Obs, String>) -> Result<(), String> {
-    let o = obs.as_ref().map_err(|e| format!("decoder panicked on the base: {e}"))?;
+    let o = obs
+        .as_ref()
+        .map_err(|e| format!("decoder panicked on the base: {e}"))?;
     if o.kind != "ok" {
         return Err(format!("base packet is not accepted: {}", o.kind));
     }
     if o.auth_enc() != (b.n_pre, b.n_enc) {
-        return Err(format!("base packet yields {:?} authenticated/encrypted fields, built with {:?}", o.auth_enc(), (b.n_pre, b.n_enc)));
+        return Err(format!(
+            "base packet yields {:?} authenticated/encrypted fields, built with {:?}",
+            o.auth_enc(),
+            (b.n_pre, b.n_enc)
+        ));
     }
     match (b.role, &o.cookie_keys) {
         (Role::Request, Some((s2c, c2s))) => {
             if *s2c != c23::key_bytes(b.alg, Dir::S2C) || *c2s != c23::key_bytes(b.alg, Dir::C2S) {
-                return Err("cookie keys of the base differ from the keys put into the cookie".into());
+                return Err(
+                    "cookie keys of the base differ from the keys put into the cookie".into(),
+                );
             }
         }
-        (Role::Request, None) => return Err("server context did not recover cookie keys from the base".into()),
+        (Role::Request, None) => {
+            return Err("server context did not recover cookie keys from the base".into());
+        }
         (Role::Response, Some(_)) => return Err("client context reported cookie keys".into()),
         (Role::Response, None) => {}
     }
@@ -295,7 +469,13 @@ fn check_base(env: &Env, b: &Base, obs: &Result<Obs, String>) -> Result<(), Stri
 }
 
 fn trace_of(b: &Base, region: Region, mutant: &[u8]) -> String {
-    format!("{};{};{};{}", ctx_name(b.role, b.alg), region_name(region), common::hex(&b.built.bytes), common::hex(mutant))
+    format!(
+        "{};{};{};{}",
+        ctx_name(b.role, b.alg),
+        region_name(region),
+        common::hex(&b.built.bytes),
+        common::hex(mutant)
+    )
 }
 
 fn replay(ctx: &Ctx, env: &Env, trace: &str) -> String {
@@ -309,7 +489,11 @@ fn replay(ctx: &Ctx, env: &Env, trace: &str) -> String {
         "client-s2c512" => KeyCtx::Client(env.cipher(Alg::A512, Dir::S2C)),
         _ => KeyCtx::Client(env.cipher(Alg::A256, Dir::S2C)),
     };
-    let (Some(region), Some(base), Some(mutant)) = (region_of_name(p[1]), common::unhex(p[2]), common::unhex(p[3])) else {
+    let (Some(region), Some(base), Some(mutant)) = (
+        region_of_name(p[1]),
+        common::unhex(p[2]),
+        common::unhex(p[3]),
+    ) else {
         return "unparsable trace".into();
     };
     let bo = observe(&k, &base);
@@ -322,10 +506,21 @@ fn replay(ctx: &Ctx, env: &Env, trace: &str) -> String {
         ctx.violation(class, what.clone(), trace);
     }
     let summary = |o: &Result<Obs, String>| match o {
-        Ok(o) => format!("{} auth/enc={:?} cookie_keys={}", o.kind, o.auth_enc(), o.cookie_keys.is_some()),
+        Ok(o) => format!(
+            "{} auth/enc={:?} cookie_keys={}",
+            o.kind,
+            o.auth_enc(),
+            o.cookie_keys.is_some()
+        ),
         Err(e) => format!("PANIC {e}"),
     };
-    format!("region={} base=[{}] mutant=[{}] verdict={:?}", p[1], summary(&bo), summary(&mo), verdict.map_err(|e| e.0))
+    format!(
+        "region={} base=[{}] mutant=[{}] verdict={:?}",
+        p[1],
+        summary(&bo),
+        summary(&mo),
+        verdict.map_err(|e| e.0)
+    )
 }
 
 #[test]
@@ -368,7 +563,11 @@ fn check() {
         match check_base(&env, b, &o) {
             Ok(()) => base_obs.push(o.ok()),
             Err(e) => {
-                ctx.violation("C25:base-not-authentic-as-built", format!("{e} [{}]", b.desc), trace_of(b, Region::Header, &b.built.bytes));
+                ctx.violation(
+                    "C25:base-not-authentic-as-built",
+                    format!("{e} [{}]", b.desc),
+                    trace_of(b, Region::Header, &b.built.bytes),
+                );
                 // still sweep it if the decoder reports anything as authentic at all
                 base_obs.push(o.ok().filter(|o| !o.nothing_authentic()));
             }
@@ -384,7 +583,11 @@ fn check() {
             "{} ({} bytes): {}",
             b.desc,
             b.built.bytes.len(),
-            spans.iter().map(|(r, n)| format!("{}x{}", region_name(*r), n)).collect::<Vec<_>>().join(" ")
+            spans
+                .iter()
+                .map(|(r, n)| format!("{}x{}", region_name(*r), n))
+                .collect::<Vec<_>>()
+                .join(" ")
         ));
     }
 
@@ -418,7 +621,12 @@ fn check() {
     common::par_for_with(
         items.len() as u64,
         16,
-        || Local { ctx: &ctx, counts: Default::default(), evals: 0, distinct: HashSet::new() },
+        || Local {
+            ctx: &ctx,
+            counts: Default::default(),
+            evals: 0,
+            distinct: HashSet::new(),
+        },
         |st, i| {
             let (bi, off) = items[i as usize];
             let b = &all[bi];
@@ -430,7 +638,9 @@ fn check() {
             let mut values: Vec<u8> = Vec::with_capacity(255);
             if quick {
                 // the 8 single-bit flips + 3 multi-bit masks (never a no-op) ...
-                for mask in [0x01u8, 0x02, 0x04, 0x08, 0x10, 0x20, 0x40, 0x80, 0xFF, 0x55, 0xAA] {
+                for mask in [
+                    0x01u8, 0x02, 0x04, 0x08, 0x10, 0x20, 0x40, 0x80, 0xFF, 0x55, 0xAA,
+                ] {
                     values.push(orig ^ mask);
                 }
                 // ... + absolute substitutions (a length byte becomes 0 / maximal, a type byte 0x04)
@@ -448,19 +658,31 @@ fn check() {
                     // absolute substitution that leaves the byte as it is: still decoded (keeps
                     // the number of evaluations independent of byte values), must equal the base
                     if got.as_ref().ok() == Some(base) {
-                        *st.counts.entry(format!("{}.noop-same-as-base", region_name(region))).or_insert(0) += 1;
+                        *st.counts
+                            .entry(format!("{}.noop-same-as-base", region_name(region)))
+                            .or_insert(0) += 1;
                     } else {
-                        found.report("C25:unmodified-packet-decodes-differently", format!("{} decoded twice gives different results", b.desc), trace_of(b, region, &work));
+                        found.report(
+                            "C25:unmodified-packet-decodes-differently",
+                            format!("{} decoded twice gives different results", b.desc),
+                            trace_of(b, region, &work),
+                        );
                     }
                     continue;
                 }
                 match judge(region, base, &got) {
                     Ok(class) => {
-                        *st.counts.entry(format!("{}.{}", region_name(region), class)).or_insert(0) += 1;
+                        *st.counts
+                            .entry(format!("{}.{}", region_name(region), class))
+                            .or_insert(0) += 1;
                         st.distinct.insert(common::hash_of(&(bi, off, class)));
                     }
                     Err((class, what)) => {
-                        found.report(&class, format!("{what} [{} offset {off}: {orig:#04x} -> {v:#04x}]", b.desc), trace_of(b, region, &work));
+                        found.report(
+                            &class,
+                            format!("{what} [{} offset {off}: {orig:#04x} -> {v:#04x}]", b.desc),
+                            trace_of(b, region, &work),
+                        );
                         st.distinct.insert(common::hash_of(&(bi, off, &class)));
                     }
                 }
@@ -484,7 +706,12 @@ fn check() {
     common::par_for_with(
         words.len() as u64,
         4,
-        || Local { ctx: &ctx, counts: Default::default(), evals: 0, distinct: HashSet::new() },
+        || Local {
+            ctx: &ctx,
+            counts: Default::default(),
+            evals: 0,
+            distinct: HashSet::new(),
+        },
         |st, i| {
             let (bi, off) = words[i as usize];
             let b = &all[bi];
@@ -492,13 +719,27 @@ fn check() {
             let k = key_ctx(&env, b.role, b.alg);
             let region = b.built.region[off];
             if b.built.region[off + 1] != region {
-                found.report("C25:harness-layout", format!("length word at {off} of {} straddles two position classes", b.desc), "layout".into());
+                found.report(
+                    "C25:harness-layout",
+                    format!(
+                        "length word at {off} of {} straddles two position classes",
+                        b.desc
+                    ),
+                    "layout".into(),
+                );
                 return;
             }
             let orig = u16::from_be_bytes([b.built.bytes[off], b.built.bytes[off + 1]]);
             let mut work = b.built.bytes.clone();
             let mut values: Vec<u16> = Vec::new();
-            for v in [0u16, 1, 4, orig.wrapping_sub(4), orig.wrapping_add(4), 0xFFFF] {
+            for v in [
+                0u16,
+                1,
+                4,
+                orig.wrapping_sub(4),
+                orig.wrapping_add(4),
+                0xFFFF,
+            ] {
                 if v != orig && !values.contains(&v) {
                     values.push(v);
                 }
@@ -509,12 +750,23 @@ fn check() {
                 st.evals += 1;
                 match judge(region, base, &got) {
                     Ok(class) => {
-                        *st.counts.entry(format!("word.{}.{}", region_name(region), class)).or_insert(0) += 1;
-                        st.distinct.insert(common::hash_of(&(bi, off, "word", class)));
+                        *st.counts
+                            .entry(format!("word.{}.{}", region_name(region), class))
+                            .or_insert(0) += 1;
+                        st.distinct
+                            .insert(common::hash_of(&(bi, off, "word", class)));
                     }
                     Err((class, what)) => {
-                        found.report(&class, format!("{what} [{} length word at offset {off}: {orig:#06x} -> {v:#06x}]", b.desc), trace_of(b, region, &work));
-                        st.distinct.insert(common::hash_of(&(bi, off, "word", &class)));
+                        found.report(
+                            &class,
+                            format!(
+                                "{what} [{} length word at offset {off}: {orig:#06x} -> {v:#06x}]",
+                                b.desc
+                            ),
+                            trace_of(b, region, &work),
+                        );
+                        st.distinct
+                            .insert(common::hash_of(&(bi, off, "word", &class)));
                     }
                 }
             }
